@@ -8,6 +8,7 @@ import JumanjiModel.Env.Sokoban.BoundsLemmas
 import JumanjiModel.Env.Sokoban.GeneratorLemmas
 import JumanjiModel.Env.Sokoban.RewardLemmas
 import JumanjiModel.Gen.SokobanLevels
+import JumanjiModel.Env.Sokoban.SpecLemmas
 open Jm Jx Sokoban
 
 namespace Props.C05
@@ -23,7 +24,47 @@ theorem sokoban_illegal_ignored (rnd : Rat → Rat) (cfg : Cfg) (s : State) (a :
 
 -- a push against another box is illegal (2×… board: agent, box, box in a row)
 example : ¬ legal 3 ⟨[[0,0,0],[0,0,0],[0,0,0]], [[3,4,4],[0,0,0],[0,0,0]], (0, 0), 0⟩ 1 := by decide
+
+/-- the reaction of the `step` function itself (wave 3; Sokoban has no mask, `step` decides): for every action 0..3 on
+a well-shaped board `step` moves the agent one cell in direction `a` exactly when the rules allow the move, and leaves
+it where it stands (the environment treated the action as a no-op) exactly when they do not -/
+theorem sokoban_step_moves_iff_legal (rnd : Rat → Rat) (cfg : Cfg) (s : State) (a : Nat) (ha : a < 4)
+    (hf : Grid.shaped s.fgrid cfg.n cfg.n = true) (hv : Grid.shaped s.vgrid cfg.n cfg.n = true)
+    (hag : inside cfg.n s.agent) :
+    ((step rnd cfg s a).1.agent = add s.agent (dirOf a) ↔ legal cfg.n s a) ∧
+    ((step rnd cfg s a).1.agent = s.agent ↔ ¬ legal cfg.n s a) :=
+  Sokoban.step_moves_iff_legal rnd cfg s a ha hf hv hag
+
+-- the agent at (1,0) pushes right (legal: it moves to (1,1)); up into the wall at (0,0) is illegal: it stays
+example : (step id ⟨3, 9, true⟩ ⟨[[1,2,2],[0,2,2],[0,0,0]], [[0,4,4],[3,4,0],[0,4,0]], (1, 0), 0⟩ 1).1.agent = (1, 1) ∧
+    (step id ⟨3, 9, true⟩ ⟨[[1,2,2],[0,2,2],[0,0,0]], [[0,4,4],[3,4,0],[0,4,0]], (1, 0), 0⟩ 0).1.agent = (1, 0) := by
+  decide +kernel
 end Props.C05
+
+namespace Props.C06
+/-- completion THROUGH `step` is a solution (wave 3): a LAST timestep emitted by `step` before the time limit, from a
+consistent board with an action 0..3, certifies that the successor is a consistent board on which EVERY one of the 4
+boxes stands on a target cell (`IsSolution`, recomputed cell by cell from the raw grids — not the L1 counter
+`count_targets`); the sparse reward of that step is 10 -/
+theorem sokoban_step_complete_is_solution (rnd : Rat → Rat) (cfg : Cfg) (s : State) (a : Nat) (ha : a < 4)
+    (hc : Consistent cfg.n s) (hl : (step rnd cfg s a).2.stepType = .last) (ht : s.stepCount + 1 < cfg.timeLimit) :
+    IsSolution cfg.n (step rnd cfg s a).1 ∧ levelComplete (step rnd cfg s a).1 = true ∧
+    (cfg.dense = false → (step rnd cfg s a).2.reward = [10]) :=
+  Sokoban.step_complete_is_solution rnd cfg s a ha hc hl ht
+
+/-- conversely a consistent board counts as complete only if every box stands on a target -/
+theorem sokoban_count_is_all (n : Nat) (s : State) (hc : Consistent n s) (h : boxesOnTarget n s = nBoxes) :
+    ∀ p ∈ Grid.coords n n, Grid.get s.vgrid 0 p.1 p.2 = BOX → Grid.get s.fgrid 0 p.1 p.2 = TARGET :=
+  Sokoban.all_boxes_on_targets hc h
+
+-- the hypotheses are satisfiable: the last push of the 4×4 example (Left from (0,3): box onto the fourth target)
+example :
+    let cfg : Cfg := ⟨4, 100, false⟩
+    let s : State := ⟨[[2,2,0,0],[2,2,0,0],[0,0,0,0],[0,0,0,0]], [[4,0,4,3],[4,4,0,0],[0,0,0,0],[0,0,0,0]], (0, 3), 2⟩
+    Consistent cfg.n s ∧ (step id cfg s 3).2.stepType = .last ∧ s.stepCount + 1 < cfg.timeLimit ∧
+      (step id cfg s 3).2.reward = [10] := by
+  decide +kernel
+end Props.C06
 
 namespace Props.C07
 /-- whatever action 0..3 is played, a consistent board (well-shaped grids, exactly one AGENT cell which
@@ -154,6 +195,15 @@ theorem sokoban_step_ts_eq (rnd : Rat → Rat) (cfg : Cfg) (s : State) (a : Nat)
     ((step rnd cfg s a).2.stepType ≠ .last → (step rnd cfg s a).2.stepType = .mid) :=
   Sokoban.step_ts_eq rnd cfg s a ha hf hv hag
 
+/-- L1 = L2 as ONE equation (wave 3: successor state AND the whole timestep — step type, reward, DISCOUNT, observation):
+on a well-shaped board with the agent inside it, for every action 0..3, `step` is the step prescribed by the rules
+(`stepL2`: `stepSpec` successor; LAST with discount 0 iff all boxes on targets or limit reached, else MID with discount
+1; documented reward; observation of the successor) -/
+theorem sokoban_step_refines (rnd : Rat → Rat) (cfg : Cfg) (s : State) (a : Nat) (ha : a < 4)
+    (hf : Grid.shaped s.fgrid cfg.n cfg.n = true) (hv : Grid.shaped s.vgrid cfg.n cfg.n = true)
+    (hag : inside cfg.n s.agent) : step rnd cfg s a = stepL2 rnd cfg s a :=
+  Sokoban.step_refines rnd cfg s a ha hf hv hag
+
 /-- `detect_noop_action` keeps the action exactly when the rules allow the move -/
 theorem sokoban_noop_iff_illegal (n : Nat) (s : State) (a : Nat) (ha : a < 4)
     (hf : Grid.shaped s.fgrid n n = true) (hv : Grid.shaped s.vgrid n n = true) :
@@ -278,12 +328,51 @@ theorem sokoban_step_count (rnd : Rat → Rat) (cfg : Cfg) (s : State) (a : Int)
     (step rnd cfg s a).1.stepCount = s.stepCount + 1 ∧
     (s.stepCount + 1 ≥ cfg.timeLimit → (step rnd cfg s a).2.stepType = .last) :=
   Sokoban.step_count rnd cfg s a
+
+/-- both directions (wave 3): `step` answers LAST exactly when the successor is solved or the limit is reached — never
+earlier; any state, any action value -/
+theorem sokoban_last_iff (rnd : Rat → Rat) (cfg : Cfg) (s : State) (a : Int) :
+    (step rnd cfg s a).2.stepType = .last ↔
+      (levelComplete (step rnd cfg s a).1 = true ∨ cfg.timeLimit ≤ s.stepCount + 1) :=
+  Sokoban.step_last_iff rnd cfg s a
+
+/-- Sokoban as an abstract step system (Core/Episode.lean) with the two-sided single-step law -/
+theorem sokoban_exact (rnd : Rat → Rat) (cfg : Cfg) :
+    Ep.Exact (Ep.ofStep (step rnd cfg) (·.stepCount)) (fun _ => True)
+      (fun s a => levelComplete (step rnd cfg s a).1 = true) .ge cfg.timeLimit :=
+  Ep.Exact.of_step (fun _ _ h => h) (fun s a _ => (Sokoban.step_count rnd cfg s a).1)
+    (fun s a _ => Sokoban.step_last_iff rnd cfg s a)
+
+/-- whole episodes: from any state with counter 0, along ANY action list of length ≥ time_limit on which no step
+before the limit produces a solved board, the first LAST timestep is emitted exactly at step number `time_limit` -/
+theorem sokoban_episode_ends_exactly_at_limit (rnd : Rat → Rat) (cfg : Cfg) (hT : 0 < cfg.timeLimit) (s : State)
+    (h0 : s.stepCount = 0) (as : List Int) (hlen : cfg.timeLimit ≤ as.length)
+    (hno : ∀ (j : Nat) (a : Int), (j : Int) + 1 < cfg.timeLimit → as[j]? = some a →
+      ¬ levelComplete (step rnd cfg ((Ep.ofStep (step rnd cfg) (·.stepCount)).stateAt s as j) a).1 = true) :
+    Ep.firstLastTS ((Ep.rollout (step rnd cfg) s as).map (·.2)) = some cfg.timeLimit.toNat :=
+  Ep.rollout_ends_exactly_at_limit (sokoban_exact rnd cfg) hT s trivial h0 as hlen hno
+
+/-- … and never later, whatever happens: some step number `k ≤ time_limit` emits the first LAST -/
+theorem sokoban_episode_ends_by_limit (rnd : Rat → Rat) (cfg : Cfg) (hT : 0 < cfg.timeLimit) (s : State)
+    (h0 : s.stepCount = 0) (as : List Int) (hlen : cfg.timeLimit ≤ as.length) :
+    ∃ k, Ep.firstLastTS ((Ep.rollout (step rnd cfg) s as).map (·.2)) = some k ∧ 0 < k ∧ (k : Int) ≤ cfg.timeLimit :=
+  Ep.rollout_ends_by_limit (sokoban_exact rnd cfg).toLimited hT s trivial h0 as hlen
+
+-- three blocked moves with limit 3 on an unsolved board: MID, MID, LAST
+example : Ep.firstLastTS ((Ep.rollout (step id ⟨3, 3, true⟩)
+    ⟨[[1,2,2],[0,2,2],[0,0,0]], [[0,4,4],[3,4,0],[0,4,0]], (1, 0), 0⟩ [0, 0, 0]).map (·.2)) = some 3 := by decide +kernel
 end Props.C11
 
 namespace Props.C12
 /-- the observation shows the variable and fixed grid and the step count of the successor state -/
 theorem sokoban_obs_faithful (rnd : Rat → Rat) (cfg : Cfg) (s : State) (a : Int) :
     (step rnd cfg s a).2.obs = observe (step rnd cfg s a).1 := Sokoban.obs_faithful rnd cfg s a
+
+/-- the same at `reset` (wave 3): the FIRST timestep shows both grids and the counter of the generated state, and the
+reset state IS the generated state -/
+theorem sokoban_reset_obs_faithful (g : State) :
+    (Sokoban.reset g).2.obs = observe (Sokoban.reset g).1 ∧ (Sokoban.reset g).2.stepType = .first ∧
+    (Sokoban.reset g).1 = g := Sokoban.reset_obs_faithful g
 end Props.C12
 
 namespace Props.C01
@@ -305,4 +394,75 @@ example : Consistent 3 ⟨[[1,2,2],[0,2,2],[0,0,0]], [[0,4,4],[3,4,4],[0,0,0]], 
 /-- the bound on `step_count` is attained on the step that reaches the limit, and the bound 4 on `grid` by a box -/
 example : (step id ⟨3, 1, false⟩ ⟨[[1,2,2],[0,2,2],[0,0,0]], [[0,4,4],[3,4,0],[0,4,0]], (1, 0), 0⟩ 1).2.obs.stepCount = 1 := by
   decide +kernel
+
+/-! #### membership in the DECLARED spec (wave 3): structure, shapes, dtypes and bounds -/
+open Sp PzS
+
+/-- the model's specs against the table generated from the real spec objects (Gen/Specs.lean) for the two catalogue
+configurations: every generated leaf is the model's (the `grid` leaf, 10·10·2 = 200 elements, is above the size limit
+of the generated table: it is compared with the real object by the `sokoban.spec` op on every run, for every
+configuration of the adapter) -/
+theorem sokoban_obsSpec_generated :
+    (prefixed "observation_spec." (obsSpec ⟨10, 120, true⟩)).filter (fun e => decide (prod e.2.shape ≤ 160))
+      = declared "sokoban-toy" "observation_spec." ∧
+    (prefixed "observation_spec." (obsSpec ⟨10, 120, true⟩)).filter (fun e => decide (prod e.2.shape ≤ 160))
+      = declared "sokoban-simple" "observation_spec." ∧
+    [("action_spec", actionSpec)] = declared "sokoban-toy" "action_spec" ∧
+    [("reward_spec", PzS.rewardSpec)] = declared "sokoban-toy" "reward_spec" ∧
+    [("discount_spec", discountSpec)] = declared "sokoban-toy" "discount_spec" := by
+  refine ⟨by decide, by decide, by decide, by decide, by decide⟩
+
+/-- the `reset` observation of every consistent generated level is accepted by `observation_spec.validate`: fields
+`grid`, `step_count`; shapes `(n, n, 2)`, `()`; dtypes uint8, int32; cells in [0, 4] -/
+theorem sokoban_reset_obs_valid (cfg : Cfg) (g : State) (hc : Consistent cfg.n g) :
+    (obsSpec cfg).valid (toNValue cfg (Sokoban.reset g).2.obs) = true := Sokoban.reset_obs_valid cfg g hc
+
+/-- for EVERY valid draw of `ToyGenerator` and for `SimpleSolveGenerator` (GRID_SIZE = 10) -/
+theorem sokoban_generated_reset_obs_valid (cfg : Cfg) (hn : cfg.n = 10) :
+    (∀ idx s, toyGenerate idx = some s → (obsSpec cfg).valid (toNValue cfg (Sokoban.reset s).2.obs) = true) ∧
+    (∀ s, simpleGenerate = some s → (obsSpec cfg).valid (toNValue cfg (Sokoban.reset s).2.obs) = true) :=
+  ⟨fun _ s hg => Sokoban.reset_obs_valid cfg s (by rw [hn]; exact Sokoban.cert_consistent (Sokoban.toy_cert_of_eq hg)),
+   fun s hg => Sokoban.reset_obs_valid cfg s (by rw [hn]; exact Sokoban.cert_consistent (Sokoban.simple_cert_of_eq hg))⟩
+
+/-- every `step` observation from a consistent board, any action 0..3 (legal or not), any rounding, up to and including
+the terminal step — and beyond (the declared `step_count` is an unbounded Array, so no hypothesis on the counter) -/
+theorem sokoban_step_obs_valid (rnd : Rat → Rat) (cfg : Cfg) (s : State) (a : Nat) (ha : a < 4)
+    (hc : Consistent cfg.n s) : (obsSpec cfg).valid (toNValue cfg (step rnd cfg s a).2.obs) = true :=
+  Sokoban.step_obs_valid rnd cfg s a ha hc
+
+/-- composed: every observation of every episode on a shipped toy level — any draw, any actions 0..3 played so far, any
+further action 0..3 -/
+theorem sokoban_toy_obs_valid_along (rnd : Rat → Rat) (cfg : Cfg) (hn : cfg.n = 10) (idx : Nat) (s : State)
+    (hg : toyGenerate idx = some s) (as : List Int) (ha : ValidActions as) (a : Nat) (ha4 : a < 4) :
+    (obsSpec cfg).valid (toNValue cfg (step rnd cfg (runState rnd cfg s as) a).2.obs) = true :=
+  Sokoban.obs_valid_along rnd cfg s (by rw [hn]; exact Sokoban.cert_consistent (Sokoban.toy_cert_of_eq hg)) as ha a ha4
+
+/-- what membership means: `validate` accepts an observation ONLY IF its planes have `n` rows, `n·n·2` cells in all,
+every one in [0, 4] -/
+theorem sokoban_obs_valid_only (cfg : Cfg) (o : Obs) (h : (obsSpec cfg).valid (toNValue cfg o) = true) :
+    List.length o.vgrid = cfg.n ∧ (stackLast o.vgrid o.fgrid).length = cfg.n * cfg.n * 2 ∧
+    ∀ v ∈ stackLast o.vgrid o.fgrid, 0 ≤ v ∧ v ≤ 4 := Sokoban.obs_valid_only cfg o h
+
+-- accepted: the 3×3 example; rejected: an encoding 5, a board of the wrong size
+example :
+    (obsSpec ⟨3, 9, true⟩).valid (toNValue ⟨3, 9, true⟩ ⟨[[0,4,4],[3,4,4],[0,0,0]], [[1,2,2],[0,2,2],[0,0,0]], 99⟩) = true ∧
+    (obsSpec ⟨3, 9, true⟩).valid (toNValue ⟨3, 9, true⟩ ⟨[[0,5,4],[3,4,4],[0,0,0]], [[1,2,2],[0,2,2],[0,0,0]], 0⟩) = false ∧
+    (obsSpec ⟨4, 9, true⟩).valid (toNValue ⟨4, 9, true⟩ ⟨[[0,4,4],[3,4,4],[0,0,0]], [[1,2,2],[0,2,2],[0,0,0]], 0⟩) = false := by
+  decide +kernel
+
+/-- `action_spec.generate_value()` = 0 ("up") is a member of the well-formed `DiscreteArray(4)`, and `step` answers it
+in EVERY state with a protocol-conform timestep -/
+theorem sokoban_accepts_generate_value (rnd : Rat → Rat) (cfg : Cfg) (s : State) :
+    actionSpec.WF = true ∧ actionSpec.valid actionSpec.generate = true ∧
+    actionSpec.generate = ⟨[], .int32, [0]⟩ ∧ StepOK none false (step rnd cfg s 0).2 = true :=
+  Sokoban.accepts_generate_value rnd cfg s
+
+/-- reward and discount of every `step` (ALL states, actions, roundings) are accepted by `reward_spec` / `discount_spec` -/
+theorem sokoban_reward_discount_valid (rnd : Rat → Rat) (cfg : Cfg) (s : State) (a : Int) :
+    PzS.rewardSpec.valid (scalarArr (step rnd cfg s a).2.reward) = true ∧
+    discountSpec.valid (scalarArr (step rnd cfg s a).2.discount) = true := by
+  refine stepOK_reward_discount_valid false _ ?_
+  unfold step condLast
+  simp only []
+  split <;> split <;> rfl
 end Props.C01
